@@ -261,3 +261,220 @@ Proof.
   - rewrite !map_map. reflexivity.
   - exists b', s'. unfold send_pages_with. repeat split; assumption.
 Qed.
+
+(* ------------------------------------------------------------------ *)
+(* The same with conversations that may panic -- in the model: the page flips, whose polling loop is bounded by fuel,
+   running out of which is a [Crash].  Then either such a conversation panicked (the whole call panics; in the model
+   alone this also stands for "the real loop would still be polling"), or everything is as above. *)
+
+Inductive weavec {A : Type} (a : N) : prog A -> prog A -> Prop :=
+| weavec_ret x : weavec a (Ret x) (Ret x)
+| weavec_fail : weavec a Fail Fail
+| weavec_crash : weavec a Crash Crash
+| weavec_own m k k' : own_msg a m -> (forall r, weavec a (k r) (k' r)) -> weavec a (Send m k) (Send m k')
+| weavec_foreign m k Q : foreign_msg a m -> (forall r, weavec a (k r) Q) -> weavec a (Send m k) Q
+| weavec_foreign_crash Q : weavec a Crash Q.
+
+Lemma weavec_refl {A} a (p : prog A) : sends_only a p -> weavec a p p.
+Proof.
+  induction p as [x| | |m k IH]; intros H; try constructor.
+  - cbn [sends_only] in H. exact (proj1 H).
+  - intros r. apply IH. cbn [sends_only] in H. exact (proj2 H r).
+Qed.
+
+Lemma weavec_bind {A B} a (P Q : prog A) (f g : A -> prog B) :
+  weavec a P Q -> (forall x, weavec a (f x) (g x)) -> weavec a (bind P f) (bind Q g).
+Proof.
+  intros H Hf. induction H as [x| | |m k k' Hm _ IH|m k Q Hm _ IH|Q]; cbn [bind].
+  - apply Hf.
+  - constructor.
+  - constructor.
+  - apply weavec_own; [exact Hm|exact IH].
+  - apply weavec_foreign; [exact Hm|exact IH].
+  - apply weavec_foreign_crash.
+Qed.
+
+(* Programs all of whose sends are addressed to signs other than [a] (they may panic). *)
+Fixpoint foreign_sends {A : Type} (a : N) (p : prog A) : Prop :=
+  match p with
+  | Send m k => foreign_msg a m /\ forall r, foreign_sends a (k r)
+  | _ => True
+  end.
+
+Inductive fprec (a : N) : prog unit -> Prop :=
+| fprec_nil : fprec a (Ret tt)
+| fprec_cons A (p : prog A) q : foreign_sends a p -> fprec a q -> fprec a (bind (catch p) (fun _ => q)).
+
+Lemma weavec_prelude2 {A B} a (p : prog A) (q : prog unit) (P Q : prog B) :
+  foreign_sends a p -> weavec a (bind q (fun _ => P)) Q ->
+  weavec a (bind (bind (catch p) (fun _ => q)) (fun _ => P)) Q.
+Proof.
+  intros Hp HP. induction p as [x| | |m k IH]; cbn [catch bind].
+  - exact HP.
+  - exact HP.
+  - apply weavec_foreign_crash.
+  - cbn [foreign_sends] in Hp. destruct Hp as [Hm Hk].
+    apply weavec_foreign; [exact Hm|]. intros r. apply IH. apply Hk.
+Qed.
+
+Lemma weavec_fprec {B} a pre (P Q : prog B) :
+  fprec a pre -> weavec a P Q -> weavec a (bind pre (fun _ => P)) Q.
+Proof.
+  intros Hpre HP. induction Hpre as [|A p q Hp _ IH]; [exact HP|].
+  apply weavec_prelude2; [exact Hp|exact IH].
+Qed.
+
+Theorem weavec_lift {A : Type} a (P Q : prog A) : weavec a P Q ->
+  forall b s, NoDup (map v_addr b) -> Forall VInv0 b -> target b a = Some s ->
+  snd (run_bus P b) = Crashed
+  \/ exists b', run_bus P b = (b', snd (run_one Q s))
+       /\ target b' a = Some (fst (run_one Q s))
+       /\ Forall VInv0 b' /\ map v_addr b' = map v_addr b.
+Proof.
+  induction 1 as [x| | |m k k' Hm _ IH|m k Q Hm _ IH|Q]; intros b s Hnd Hinv Ht;
+    try solve [right; exists b; cbn [run_bus run_one fst snd]; auto].
+  - pose proof (target_VInv0 b a s Hinv Ht) as Hs0.
+    cbn [run_bus run_one].
+    destruct (vstep s m) as [[s' r]|] eqn:Hs; [|exfalso; exact (no_panic_step s m Hs0 Hs)].
+    destruct (bus_step_target b a s m s' r Hnd Hinv Ht Hm Hs) as (b1 & Hbs & Ht1 & Hinv1 & Hmap1).
+    rewrite Hbs.
+    destruct (IH r b1 s' (eq_ind_r (fun l => NoDup l) Hnd Hmap1) Hinv1 Ht1)
+      as [Hc|(b' & Hr & Ht' & Hinv' & Hmap')]; [left; exact Hc|].
+    right. exists b'. split; [exact Hr|]. split; [exact Ht'|]. split; [exact Hinv'|]. congruence.
+  - destruct (bus_step_foreign b a s m Hnd Hinv Ht Hm) as (b1 & r & Hbs & Ht1 & Hinv1 & Hmap1).
+    cbn [run_bus]. rewrite Hbs.
+    destruct (IH r b1 s (eq_ind_r (fun l => NoDup l) Hnd Hmap1) Hinv1 Ht1)
+      as [Hc|(b' & Hr & Ht' & Hinv' & Hmap')]; [left; exact Hc|].
+    right. exists b'. split; [exact Hr|]. split; [exact Ht'|]. split; [exact Hinv'|]. congruence.
+  - left. reflexivity.
+Qed.
+
+Lemma weavec_send_items a : forall src count,
+  Forall (fun it => fprec a (fst it)) src ->
+  weavec a (send_items_with src count) (send_items (map snd src) count).
+Proof.
+  induction src as [|[pre item] src IH]; intros count Hsrc; [apply weavec_refl; exact I|].
+  pose proof (Forall_inv Hsrc) as Hpre. pose proof (Forall_inv_tail Hsrc) as Hsrc'.
+  cbn [fst] in Hpre. cbn [send_items_with map snd send_items].
+  apply weavec_fprec; [exact Hpre|].
+  apply weavec_bind; [apply weavec_refl; apply so_send_chunks|].
+  intros c. apply IH. exact Hsrc'.
+Qed.
+
+Lemma weavec_attempt a op src :
+  Forall (fun it => fprec a (fst it)) src ->
+  weavec a (attempt_with a op src) (attempt a op (map snd src)).
+Proof.
+  intros Hsrc. unfold attempt_with, attempt.
+  apply weavec_bind; [apply weavec_refl; apply so_expect; left; reflexivity|]. intros _.
+  apply weavec_bind; [apply weavec_send_items; exact Hsrc|]. intros n.
+  apply weavec_refl. apply sends_only_bind; [apply so_expect; right; reflexivity|].
+  intros _. apply so_send. left. reflexivity.
+Qed.
+
+Lemma weavec_transfer_loop a op src su fa : forall n,
+  Forall (fun it => fprec a (fst it)) src ->
+  weavec a (transfer_loop_with n a op src su fa) (transfer_loop n a op (map snd src) su fa).
+Proof.
+  induction n as [|n IH]; intros Hsrc; cbn [transfer_loop_with transfer_loop].
+  - apply weavec_bind; [apply weavec_attempt; exact Hsrc|]. intros r. apply weavec_refl. apply so_verify.
+  - apply weavec_bind; [apply weavec_attempt; exact Hsrc|]. intros r.
+    destruct (omsg_eqb r (Some (ReportState a fa))); [apply IH; exact Hsrc|apply weavec_refl; apply so_verify].
+Qed.
+
+Lemma weavec_send_pages a src ps :
+  Forall (fun it => fprec a (fst it)) src -> map snd src = map p_bytes ps ->
+  weavec a (send_pages_gen a src) (send_pages a ps).
+Proof.
+  intros Hsrc Hb. unfold send_pages_gen, send_pages, transfer. rewrite <- Hb.
+  apply weavec_bind; [apply weavec_transfer_loop; exact Hsrc|]. intros _.
+  apply weavec_refl.
+  apply sends_only_bind; [apply so_expect; left; reflexivity|]. intros _.
+  apply sends_only_bind; [apply so_send; left; reflexivity|]. intros r.
+  destruct r as [[ | | | |a' st| | | | | ]|]; try exact I.
+  destruct st; try exact I. destruct (a' =? a); exact I.
+Qed.
+
+(* Calls for other signs that send addressed messages only: goodbye and the page flips. *)
+Definition foreign_flip_call (a : N) (c : cop) : Prop :=
+  match c with
+  | CopShutDown a' | CopShow _ a' | CopLoadNext _ a' => a' <> a
+  | _ => False
+  end.
+
+Lemma foreign_sends_bind {A B} a (p : prog A) (f : A -> prog B) :
+  foreign_sends a p -> (forall x, foreign_sends a (f x)) -> foreign_sends a (bind p f).
+Proof.
+  induction p as [x| | |m k IH]; intros Hp Hf; cbn [bind foreign_sends]; auto.
+  cbn [foreign_sends] in Hp. destruct Hp as [Hm Hk]. split; [exact Hm|]. intros r. apply IH; [apply Hk|exact Hf].
+Qed.
+
+Lemma fs_send a a' m : msg_target m = Some a' -> a' <> a -> foreign_sends a (send m).
+Proof. intros Hm Hne. unfold send. cbn [foreign_sends]. split; [exists a'; auto|]. intros r. exact I. Qed.
+
+Lemma fs_expect a a' m e : msg_target m = Some a' -> a' <> a -> foreign_sends a (expect m e).
+Proof.
+  intros Hm Hne. unfold expect. apply foreign_sends_bind; [apply (fs_send a a'); assumption|].
+  intros r. unfold verify. destruct (omsg_eqb r e); exact I.
+Qed.
+
+Lemma fs_switch_page a a' tg tr op : a' <> a -> forall fuel, foreign_sends a (switch_page fuel a' tg tr op).
+Proof.
+  intros Hne. induction fuel as [|fuel IH]; cbn [switch_page]; [exact I|].
+  apply foreign_sends_bind; [apply (fs_send a a'); [reflexivity|exact Hne]|].
+  intros r. destruct r as [[ | | | |a2 st| | | | | ]|]; try exact I.
+  destruct (a2 =? a'); [|exact I].
+  destruct (state_is st ShowingPages); [exact I|].
+  destruct (state_is st tg); [exact I|].
+  destruct (state_is st tr).
+  - apply foreign_sends_bind; [apply (fs_expect a a'); [reflexivity|exact Hne]|]. intros _. exact IH.
+  - destruct (state_is st PageLoadInProgress || state_is st PageShowInProgress); [exact IH|exact I].
+Qed.
+
+Lemma foreign_flip_call_sends a c : foreign_flip_call a c -> foreign_sends a (cop_prog c).
+Proof.
+  destruct c as [a' t|a' t|a' ps|fuel a'|fuel a'|a']; cbn [foreign_flip_call]; intros H; try contradiction;
+    cbn [cop_prog]; (apply foreign_sends_bind; [|intros _; exact I]).
+  - apply fs_switch_page. exact H.
+  - apply fs_switch_page. exact H.
+  - apply (fs_expect a a'); [reflexivity|exact H].
+Qed.
+
+Lemma fprec_prelude a cs : Forall (foreign_flip_call a) cs -> fprec a (prelude cs).
+Proof.
+  induction 1 as [|c cs Hc _ IH]; cbn [prelude]; [constructor|].
+  apply fprec_cons; [apply foreign_flip_call_sends; exact Hc|exact IH].
+Qed.
+
+Theorem closed_send_pages_with_flip_calls : forall b a items s,
+  NoDup (map v_addr b) -> Forall VInv0 b -> target b a = Some s ->
+  receive_pixels_legal (v_state s) = true -> 0 < v_w s -> 0 < v_h s ->
+  Forall (fun p => p_w p = v_w s /\ p_h p = v_h s
+                   /\ nlen (p_bytes p) = total_bytes (v_w s) (v_h s)) (map snd items) ->
+  total_bytes (v_w s) (v_h s) <= 65536 ->
+  N.of_nat (length items) * (total_bytes (v_w s) (v_h s) / 16) < 65536 ->
+  Forall (fun it => Forall (foreign_flip_call a) (fst it)) items ->
+  snd (run_bus (send_pages_with a items) b) = Crashed
+  \/ exists b' s',
+       run_bus (send_pages_with a items) b = (b', Done (v_style s)) /\ target b' a = Some s'
+       /\ v_pages s' = map snd items
+       /\ v_state s' = match v_style s with Manual => PageLoaded | Automatic => ShowingPages end
+       /\ v_type s' = v_type s /\ (v_w s', v_h s') = (v_w s, v_h s)
+       /\ Forall VInv0 b' /\ map v_addr b' = map v_addr b.
+Proof.
+  intros b a items s Hnd Hinv Ht Hlegal Hw Hh Hps HT Hcnt Hcalls.
+  destruct (target_In b a s Ht) as [_ Ha].
+  assert (Hcnt' : N.of_nat (length (map snd items)) * (total_bytes (v_w s) (v_h s) / 16) < 65536)
+    by (rewrite map_length; exact Hcnt).
+  pose proof (one_send_pages a (map snd items) s (target_VInv0 b a s Hinv Ht) Ha Hlegal Hw Hh Hps HT Hcnt')
+    as Hone.
+  assert (Hweave : weavec a (send_pages_with a items) (send_pages a (map snd items))).
+  { unfold send_pages_with. apply weavec_send_pages.
+    - apply Forall_map. cbn [fst]. revert Hcalls. apply Forall_impl. intros it Hit. apply fprec_prelude. exact Hit.
+    - rewrite !map_map. reflexivity. }
+  destruct (weavec_lift a _ _ Hweave b s Hnd Hinv Ht) as [Hc|(b' & H1 & H2 & H3 & H4)]; [left; exact Hc|].
+  rewrite Hone in H1, H2. cbn [fst snd] in H1, H2.
+  right. exists b', (loaded s (map snd items)). split; [exact H1|]. split; [exact H2|].
+  unfold loaded. cbn [v_addr v_style v_state v_pages v_pending v_chunks v_w v_h v_type].
+  repeat split; try assumption; try reflexivity.
+Qed.
